@@ -980,6 +980,14 @@ fn lists(thorough: bool) -> Vec<RVal> {
   out
 }
 
+fn gcd(a: i64, b: i64) -> i64 {
+  if b == 0 {
+    a.abs()
+  } else {
+    gcd(b, a % b)
+  }
+}
+
 fn number_lists(thorough: bool) -> Vec<RVal> {
   let items = vec![n(1), n(2), n(3), q(5, 2), n(-1), n(0)];
   let mut out = vec![l(vec![])];
@@ -995,6 +1003,21 @@ fn number_lists(thorough: bool) -> Vec<RVal> {
           }
         }
       }
+    }
+  }
+  // longer lists in scrambled orders (library sorting and selection routines switch algorithm with the length)
+  for len in [9i64, 16, 17, 18, 20, 21, 32, 33, 50, 64, 65] {
+    for mult in [7i64, 11, 23] {
+      // k -> (k * mult + 3) mod len is a permutation of 0..len when mult is coprime to len
+      if gcd(mult, len) != 1 {
+        continue;
+      }
+      out.push(l((0..len).map(|k| n((k * mult + 3) % len + 1)).collect()));
+      // the same with one duplicate and one fraction
+      let mut v: Vec<RVal> = (0..len).map(|k| n((k * mult + 3) % len + 1)).collect();
+      v[1] = v[0].clone();
+      v[2] = q(5, 2);
+      out.push(l(v));
     }
   }
   out.push(l(vec![n(6), n(3), n(9), n(6), n(6)]));
